@@ -234,6 +234,8 @@ pub fn event(e: &Event) -> Value {
             out_len,
         } => json!({"ev": "ch", "i": index, "c": c.map(|c| c as u32).unwrap_or(NONE_CP),
             "st": state.0, "a": state.1, "b": state.2, "d": state.3, "out": out_len}),
+        Event::FirstPass { changed, sets } => json!({"ev": "first_pass", "changed": changed, "sets": sets.iter().map(|(n, ts, eps)|
+            json!({"n": n, "ts": ts.iter().map(|t| format!("${t}")).collect::<Vec<_>>(), "eps": eps})).collect::<Vec<_>>()}),
         Event::FirstSets(sets) => json!({"ev": "first", "sets": sets.iter().map(|(n, ts, eps)|
             json!({"n": n, "ts": ts.iter().map(|t| format!("${t}")).collect::<Vec<_>>(), "eps": eps})).collect::<Vec<_>>()}),
         Event::BuilderPop(i) => json!({"ev": "pop", "i": i}),
@@ -261,5 +263,7 @@ pub fn event(e: &Event) -> Value {
             json!({"ev": "goto_fill_order", "cells": cells.iter().map(|(s, n)| json!([s, n])).collect::<Vec<_>>()})
         }
         Event::FreshNames(names) => json!({"ev": "names", "chosen": names}),
+        #[allow(unreachable_patterns)]
+        _ => json!({"ev": "unknown"}),
     }
 }
